@@ -209,6 +209,8 @@ func tables(repo string, out *Out) {
 		fail("setupRetry")
 	}
 	tablesMore(repo, out, put, fail)
+	tablesLoad(repo, out, put, fail)
+	tablesVars(repo, put, fail)
 }
 
 func stmtsSrc(l []ast.Stmt) string {
